@@ -389,7 +389,7 @@ func (e *Engine) calleeName(cc *ssa.CallCommon) string {
 // usesPathGhosts: does a clause mention ghost state that is local to one execution of a function body.
 func usesPathGhosts(expr string) bool {
 	for _, g := range []string{"spawned(", "calls(", "lastres(", "lastarg(", "lastsent(", "lastrecv(", "lasterr(", "lastrand(",
-		"icalls(", "ilast(", "atomics(", "apre(", "apost(", "aop(", "panicking(", "nolocks(", "held(", "heldW(", "heldR(", "heldcond(", "mapkey(", "mapidx(", "now(", "captured("} {
+		"icalls(", "ilast(", "atomics(", "apre(", "apost(", "aop(", "panicking(", "nolocks(", "held(", "heldW(", "heldR(", "heldcond(", "mapkey(", "mapidx(", "now(", "atentry(", "captured("} {
 		if strings.Contains(expr, g) {
 			return true
 		}
